@@ -88,16 +88,18 @@ PROPS['C14'] = {
     'level_text': 'Deductive proof (Verus/Z3) on the real body of DataHash::pad_to_size: a successful call leaves the serialized assertion at exactly the '
                   'requested size, the hash is untouched, loop and recursion terminate, and from a fresh assertion (no pad2) EVERY ample reserve succeeds '
                   '(totality, hence the monotonicity of the statement) - for all sizes below 2^31, which no finite set of reserve sizes in a test gives. '
-                  'The COSE half (pad_cose_sig) is a bounded-exhaustive stand-in and not counted as proved.',
+                  'The COSE half: Verus proof on the real (repaired) pad_cose_sig - a successful result has exactly the reserved size and every reserve equal to the unpadded size or at least 7 bytes above it succeeds - '
+                  'under the CBOR size axiom for a padding entry; the same function is also run natively for every reserve up to +70000 (not counted as proved).',
     'level_note': 'CBOR size model (RFC 8949 byte-string header lengths) assumed for to_assertion(); base size uninterpreted; sizes < 2^31; Store::start_save_stream equal-size check not covered.',
     'technique': TECH_V,
-    'parts': [V('verus:pad', 'pad'),
+    'parts': [V('verus:pad', 'pad'), V('verus:cose_pad', 'cose_pad'),
               B('native:pad_cose_sig', 'sdk', [{'name': 'c14_pad_cose_sig_every_reserve', 'tier': 'quick'}], functions=[('sdk/src/crypto/cose/sign.rs', 'pad_cose_sig')],
                 bounds='every reserve from the unpadded size to +70000 (empty unprotected header); to +1200 (thorough +70000) for a populated header')],
     'trusted_base': TB_VERUS + ['to_assertion() is Ok and |data| = base(hash) + hdr(|pad|) + |pad| + (pad2 ? 5 + hdr(|pad2|) + |pad2| : 0), hdr = CBOR byte-string header length',
+                                'coset: pushing (Text(label), Bytes(n zeros)) onto unprotected.rest grows the tagged serialization by 1 + |label| + hdr(n) + n (fewer than 20 entries); checked natively for every reserve up to +70000',
                                 'serde_bytes::ByteBuf::from(v) holds v'],
     'rule': 'obligation = one Verus function-level query over real text extracted from /repo on this run',
-    'not_covered': ['Store::start_save_stream / finish_save_stream equal-size checks (whole Store)', 'pad_cose_sig: see the native part'],
+    'not_covered': ['Store::start_save_stream / finish_save_stream equal-size checks (whole Store)', 'reserves 1..=6 bytes above the unpadded COSE size (recorded finding)'],
 }
 
 PROPS['C15'] = {
